@@ -29,7 +29,7 @@ from fractions import Fraction as F
 from ..loader import AnalysisError
 from ..pe import (PE, Tensor, Obj, Mock, PyRaise, Fork, Func, ClassRef,
                   Unsupported)
-from ..qir import Fwd, Eval, Env, simplify_app, mk_app
+from ..qir import Fwd, Eval, Env, simplify_app, mk_app, expand_logs
 from ..nf import NF, show
 from ..vset import VS
 from .. import pwa
@@ -402,11 +402,12 @@ def rule_forgiving(rep, repo):
               "the arm for %s trials is %s; it must be scaled by %s" %
               (what, show(arm, 160), "delta_p" if coef == "dp" else
                "delta_n"), loc=loc)
-    at_ref = arm.subst({("sym", "t"): R}, simplify_app)
+    at_ref = expand_logs(arm.subst({("sym", "t"): R}, simplify_app))
     rep.check(at_ref.is_zero(), "R6", unit, "nonzero-at-reference:" + what,
               "at trial == reference the %s-trial arm is %s, not 0" %
               (what, show(at_ref, 120)), loc=loc)
-    sub = arm.subst({("sym", "t"): R * u}, simplify_app)
+    # sizes, rate and the deltas are positive: log of a product is expanded
+    sub = expand_logs(arm.subst({("sym", "t"): R * u}, simplify_app))
     env = Env(x=VS.real(urange[0], urange[1]), xsign=1,
               syms={"R": VS.real(F(1), None), "dp": VS.real(F(1, 1000), None),
                     "dn": VS.real(F(1, 1000), None),
